@@ -46,31 +46,31 @@ type AtSpec struct {
 }
 
 type Contract struct {
-	Sel       string
-	File      string
-	Line      int
-	Requires  []Clause
-	Ensures   []Clause
-	Panics    []string
-	HasPanics bool
-	Assigns   []string
-	HasAssign bool
-	Loops     map[int]*LoopSpec
-	Ghosts    []GhostDecl
-	Ats       []AtSpec
-	Pure      bool
-	Trusted   bool
-	Inline    bool
-	Overflow  bool
-	Fresh     bool // result is freshly allocated
-	Props     []string
-	Expect    string // expected signature string (pin for ordinal-keyed closures)
-	Names     []string // parameter names override (external functions)
-	Reads     bool     // pure function may read the heap (re-evaluated per state)
-	Unverified bool    // in-repo contract whose body is not (yet) verified: an assumption
+	Sel        string
+	File       string
+	Line       int
+	Requires   []Clause
+	Ensures    []Clause
+	Panics     []string
+	HasPanics  bool
+	Assigns    []string
+	HasAssign  bool
+	Loops      map[int]*LoopSpec
+	Ghosts     []GhostDecl
+	Ats        []AtSpec
+	Pure       bool
+	Trusted    bool
+	Inline     bool
+	Overflow   bool
+	Fresh      bool // result is freshly allocated
+	Props      []string
+	Expect     string   // expected signature string (pin for ordinal-keyed closures)
+	Names      []string // parameter names override (external functions)
+	Reads      bool     // pure function may read the heap (re-evaluated per state)
+	Unverified bool     // in-repo contract whose body is not (yet) verified: an assumption
 	Implements []string // function-type contracts this function must also satisfy
 	NoCapture  bool     // never writes a captured variable or a package-level variable
-	External  bool
+	External   bool
 }
 
 type IfaceMethod struct {
